@@ -271,6 +271,8 @@ def hdl21_naming_encoder(obj: Any) -> Any:
     from .instance import Instance
     from .generator import Generator
     from .primitives import Primitive, PrimitiveCall
+    from .prefix import Prefixed
+    from fractions import Fraction
 
     if isinstance(obj, (Instance,)):
         # Not supported as parameters
@@ -292,6 +294,12 @@ def hdl21_naming_encoder(obj: Any) -> Any:
     if isinstance(obj, ExternalModuleCall):
         # Mix the qualified class names/paths with the parameters
         return hdl21_naming_encoder(obj.module) + _unique_name(obj.params)
+
+    if isinstance(obj, Prefixed):
+        # Name by the exact value denoted. (The default encoding goes through `float`: numbers which differ
+        # beyond its precision would share a name, and equal numbers written differently would not.)
+        value = Fraction(obj.number) * Fraction(10) ** obj.prefix.value
+        return f"Prefixed({value.numerator}/{value.denominator})"
 
     if isinstance(obj, (set, frozenset)):
         # Sets iterate in hash order, which differs from process to process.
